@@ -32,6 +32,8 @@ class C01Box(Monitor):
         onf = int(((arr == self.ctx.lo) | (arr == self.ctx.hi)).any(axis=1).sum())
         if onf:
             self.cov(f"on_face.{where}", onf)
+            if self.ctx.desc.get("box", {}).get("cls") == "overshoot" and where.startswith("EADeme") and any(lv.get("engine") == "ga" for lv in self.ctx.desc.get("levels", [])[1:]):
+                self.cov("ga_style_deme_evaluations_with_a_coordinate_exactly_on_a_face_of_a_decimal_box", onf)
         if self.ctx.desc.get("use_cache") and self.ctx.desc.get("box", {}).get("cls") == "fullprec":
             hair = int(((np.abs(arr - self.ctx.lo) <= 1e-12) | (np.abs(self.ctx.hi - arr) <= 1e-12)).any(axis=1).sum())
             if hair:
@@ -55,6 +57,10 @@ class C01Box(Monitor):
         self.checked_to = max(self.checked_to, end)
         if deme._sprout_seed is not None and not self.ctx.in_box(deme._sprout_seed.genome):
             self.v("sprout seed outside the box", deme=deme.id, x=hexf(deme._sprout_seed.genome))
+        if deme._sprout_seed is not None and type(deme).__name__ == "LocalDeme":
+            f_ = deme._sprout_seed.fitness
+            if f_ is not None and f_ == f_ and abs(f_) == float("inf"):
+                self.cov("local_deme_sprouted_from_a_seed_with_infinite_fitness")
 
     def on_deme_exit(self, deme, start, end):
         self._check_range(start, end, f"{type(deme).__name__} metaepoch")
